@@ -14,8 +14,6 @@ SHARDS = {'quick': 4, 'thorough': 16}
 N = {'quick': 25, 'thorough': 700}
 
 def classify(s):
-    if any(c.isalpha() and not trained.reproducible_char(c) for c in s):
-        return 'non-reversible-case'
     return None
 
 def perturb(rng, s):
